@@ -411,3 +411,115 @@ class SchemaObs:
             self.impl.walk()
             for i in set(self.impl.registry) - known:      # classes created by the observation itself: none expected
                 pass
+
+
+# ------------------------------------------------------------------------------------ history generator
+COMMON_KW = {
+    'min_occurs': [0, 1, 2], 'max_occurs': [1, 2, 5, 'unbounded', INF, 'inf'], 'nillable': [True, False],
+    'nullable': [True, False], 'default': [None, 0, 7, 'x'], 'sub_name': ['alt', 'other'], 'exc': [True, False],
+    'exc_table': [True, False], 'voa': [True, False], 'validate_on_assignment': [True], 'read_only': [True],
+    'foo': [1, 'bar'], '_private': [1], 'doc': ['some text'],
+}
+NUMBER_KW = {'ge': [-5, 0, 3, 100, 300], 'gt': [-5, 0, 3, 100, 255, 300], 'le': [-5, 0, 3, 100, 300, 2 ** 31],
+             'lt': [-5, 0, 3, 100, 300], 'total_digits': [3, 10], 'fraction_digits': [0, 2, 12],
+             'max_str_len': [5, 20], 'values': [[1, 2, 3], [0], []]}
+UNICODE_KW = {'min_len': [0, 1, 3], 'max_len': [2, 5, 10, INF], 'pattern': ['[a-z]+', 'a*', None],
+              'values': [['a', 'b'], ['abc'], []]}
+SIMPLE_TN = {'type_name': ['STn', 'Other']}
+COMPLEX_KW = {'type_name': ['Ren', 'Ren2'], 'namespace': ['ns.a', 'ns.b']}
+FIELD_NAMES = ['a', 'b', 'c', 'd', 'e', 'f', 'g']
+
+
+def gen_kw(rng, kind, n=None, for_child=False):
+    table = dict(COMMON_KW)
+    if kind == 'number':
+        table.update(NUMBER_KW)
+    elif kind == 'unicode':
+        table.update(UNICODE_KW)
+    if kind in ('number', 'unicode', 'simple', 'bytes'):
+        table.update(SIMPLE_TN)
+    if kind in ('complex', 'array', 'iterable') and not for_child:
+        table.update(COMPLEX_KW)
+    if for_child:
+        for k in ('doc', '_private'):
+            table.pop(k, None)
+    n = n if n is not None else rng.choice([0, 1, 1, 1, 2, 2, 3])
+    keys = rng.sample(sorted(table), min(n, len(table)))
+    return [[k, aval(rng.choice(table[k]))] for k in keys]
+
+
+def flat_names(cls):
+    names = []
+    x = cls
+    while x is not None:
+        names += [n for n in x._type_info.keys() if n not in names]
+        x = x.__extends__
+    return names
+
+
+def gen_op(rng, impl, step, serial):
+    pool = impl.pool
+    idx = list(range(len(pool)))
+    kinds = [kind_of(c) for c in pool]
+    simple = [i for i in idx if kinds[i] in ('number', 'unicode', 'simple', 'bytes')]
+    cplx = [i for i in idx if kinds[i] == 'complex']
+    arrs = [i for i in idx if kinds[i] in ('array', 'iterable')]
+    w = [('cust_simple', 28), ('sub', 16 if step > 0 else 60), ('array', 10), ('mand', 10), ('xmlattr', 2)]
+    if cplx:
+        w += [('cust_complex', 16), ('append', 11), ('insert', 7)]
+    if arrs:
+        w += [('cust_array', 4)]
+    r = rng.randrange(sum(x for _, x in w))
+    for name, x in w:
+        if r < x:
+            break
+        r -= x
+    if name == 'cust_simple':
+        i = rng.choice(simple + [j for j in idx if kinds[j] == 'xmlattr'][:1])
+        k = kinds[i] if kinds[i] != 'xmlattr' else 'simple'
+        return {'k': 'cust', 'src': i, 'kw': gen_kw(rng, k)}
+    if name in ('cust_complex', 'cust_array'):
+        i = rng.choice(cplx if name == 'cust_complex' else arrs)
+        op = {'k': 'cust', 'src': i, 'kw': gen_kw(rng, 'complex')}
+        names = flat_names(pool[i])
+        r = rng.random()
+        if r < 0.45:
+            cand = names + ['zz', rng.choice(FIELD_NAMES)]
+            ks = rng.sample(cand, min(len(cand), rng.choice([1, 1, 2, 3])))
+            op['ca'] = [[n, gen_kw(rng, 'any', n=rng.choice([1, 2]), for_child=True)] for n in dict.fromkeys(ks)]
+        if 0.35 < r < 0.6:
+            op['caa'] = gen_kw(rng, 'any', n=rng.choice([1, 1, 2]), for_child=True)
+        return op
+    if name == 'sub':
+        nf = rng.choice([0, 1, 2, 2, 3, 3, 4])
+        names = rng.sample(FIELD_NAMES, nf)
+        fields = [[n, rng.choice(idx)] for n in names]
+        base = None
+        if cplx and rng.random() < 0.55:
+            base = rng.choice(cplx)
+        return {'k': 'sub', 'name': 'K%d_%d' % (serial, step), 'base': base, 'ns': rng.choice([None, 'ns.a', 'ns.k']),
+                'fields': fields}
+    if name == 'array':
+        op = {'k': 'array', 'src': rng.choice(idx), 'kw': gen_kw(rng, 'complex', n=rng.choice([0, 0, 1, 2]))}
+        r = rng.random()
+        if r < 0.2:
+            op['member'] = rng.choice(['item', 'm'])
+        elif r < 0.32:
+            op['flat'] = True
+            op['kw'] = [p for p in op['kw'] if p[0] not in ('type_name', 'namespace')]
+        elif r < 0.45:
+            op['iter'] = True
+        return op
+    if name == 'mand':
+        return {'k': 'mand', 'src': rng.choice(idx)}
+    if name == 'xmlattr':
+        return {'k': 'xmlattr', 'src': rng.choice(simple)}
+    # append / insert
+    c = rng.choice(cplx)
+    existing = flat_names(pool[c])
+    nm = rng.choice(FIELD_NAMES + ['h', 'i'] + existing[:2])
+    cand = [j for j in idx if not impl.reaches(pool[j], pool[c])]
+    t = rng.choice(cand)
+    if name == 'append':
+        return {'k': 'append', 'c': c, 'name': nm, 't': t}
+    return {'k': 'insert', 'c': c, 'idx': rng.choice([0, 0, 1, 2, 5]), 'name': nm, 't': t}
